@@ -222,7 +222,7 @@ def r4_omen_exit_writers(ctx, rule):
 
 def rules(tier):
     return [('C15.R1', r1_one_shot_key), ('C15.R2', r2_no_generated_unemitted), ('C15.R3', r3_pickle_layout),
-            ('C15.R4', r4_omen_exit_writers), ('C15.R5', c08.r5_sav_keys)]
+            ('C15.R4', r4_omen_exit_writers), ('C15.R5', lambda c, r: c08.r5_sav_keys(c, r, sections=('guessing_info',), floor=3))]
 
 
 META = {
